@@ -154,7 +154,7 @@ func Check(prop string) int {
 				samples = append(samples, map[string]interface{}{
 					"pre_state_history": r.Pair.History, "pre_state_not_closed": r.Pair.Dirty, "operation": r.Pair.Op,
 					"counted_calls": r.Trace, "crash_states_judged": r.CrashStates, "injected_failures_run": r.FailRuns,
-					"findings": len(r.Findings)})
+					"findings": len(r.Findings), "example_cases": exampleCases(r)})
 			}
 		}
 	}
@@ -287,27 +287,27 @@ func Check(prop string) int {
 			"every counted call is made to fail once with EIO and, if it can consume space, once with ENOSPC. A case is (pre-state history, operation, crash index | failed call ordinal + errno); " +
 			"distinct_nontrivial counts the crash indexes k>=1 (at least one call of the operation has executed) plus all injected failures; cases are distinct by construction. " +
 			"Crash states with byte-identical directory content within one pair share one recovery (crash_states_recovered counts the recoveries actually executed).",
-		"samples":                 samples,
-		"exhaustive":              exhaustive,
-		"pairs":                   okPairs,
-		"pairs_planned":           len(pairs),
-		"pairs_submitted":         submitted,
-		"crash_points":            tot.CrashStates,
-		"crash_states_recovered":  tot.CrashRecover,
-		"injected_failures":       tot.FailRuns,
-		"counted_calls":           tot.Calls,
-		"lint_ops":                lintOps,
-		"lint_calls":              tot.LintCalls,
-		"recoveries":              tot.Recoveries,
-		"snapshot_revert_checks":  tot.RevertChecks,
-		"victim_runs":             tot.VictimRuns,
-		"other_thread_calls_seen": tot.OtherThread,
-		"other_thread_calls":      tot.OtherCalls,
-		"determinism":             "each pair's reference run is traced twice and every snap-each / failing run is compared call by call with it; every finding is re-executed 5 times from scratch",
+		"samples":                  samples,
+		"exhaustive":               exhaustive,
+		"pairs":                    okPairs,
+		"pairs_planned":            len(pairs),
+		"pairs_submitted":          submitted,
+		"crash_points":             tot.CrashStates,
+		"crash_states_recovered":   tot.CrashRecover,
+		"injected_failures":        tot.FailRuns,
+		"counted_calls":            tot.Calls,
+		"lint_ops":                 lintOps,
+		"lint_calls":               tot.LintCalls,
+		"recoveries":               tot.Recoveries,
+		"snapshot_revert_checks":   tot.RevertChecks,
+		"victim_runs":              tot.VictimRuns,
+		"other_thread_calls_seen":  tot.OtherThread,
+		"other_thread_calls":       tot.OtherCalls,
+		"determinism":              "each pair's reference run is traced twice and every snap-each / failing run is compared call by call with it; every finding is re-executed 5 times from scratch",
 		"findings_before_grouping": len(findings),
-		"violation_signatures":    violOut,
-		"findings_by_oracle":      sumOut,
-		"known_findings_matched":  nknown,
+		"violation_signatures":     violOut,
+		"findings_by_oracle":       sumOut,
+		"known_findings_matched":   nknown,
 		"C10_crash_clause": map[string]interface{}{"crash_points_of_writes_and_SetRevisionCounter": tot.C10Points, "counter_outside_old_new": tot.C10Bad,
 			"rule": "at every boundary of a write in RW mode and of SetRevisionCounter the counter read after reopen is the value before or after the operation and never below the value before"},
 		"budget_s":     budget.Seconds(),
@@ -321,7 +321,7 @@ func Check(prop string) int {
 		Assumptions: []string{
 			"crash = death of the replica process (kill -9, OOM, container stop): completed system calls are in the kernel's cache and survive, open descriptors vanish; loss of un-flushed data at power failure is covered only by the durability lint on the call trace (directory fsync after every rename/link/unlink/create, O_SYNC or fsync of metadata before its rename), not by materialised states",
 			"one fault per execution: a single crash point or a single failing call; ENOSPC only on calls that can consume space, EIO on all; read-side calls (open O_RDONLY, read, stat, FIEMAP) are not failed",
-			"the operation's file-system calls are those of the victim's locked OS thread (runtime.LockOSThread); calls by other threads inside the window are counted separately (other_thread_calls_seen) and were 0 unless stated; hole punching is off in the victim (types.ShouldPunchHoles=false as in a freshly started replica)",
+			"the operation's file-system calls are those of the victim's locked OS thread (runtime.LockOSThread); calls by other threads inside the window are not crash points of their own; they are listed in other_thread_calls (only the hole puncher's fallocate after Reload is expected). Hole punching is off in the victim (types.ShouldPunchHoles=false as in a freshly started replica) except that Reload switches it on; the Reload operation is taken to include the punches it queues (the victim waits for the queue to drain before the end marker)",
 			"bytes of a write that was interrupted or reported as failed may be old or new per 4 KiB block; everything else must be exactly the state before or after",
 			"retained snapshot = user-created and not marked removed; its image is checked by copying the reopened directory, Revert with the real code and a full read; snapshots are only removed where the system does it (neither the removed member nor the parent it is merged into is retained, or the user deletes a user snapshot whose parent is not retained)",
 			"recovery is Server.Open (for Create: Server.Create then Open, as a starting replica process does); the reference model is harness/ea/model.go; sparse.FoldFile runs in-process in place of the sfold child",
@@ -386,6 +386,23 @@ func glob(pat, s string) bool {
 		s = s[j+len(p):]
 	}
 	return s == ""
+}
+
+// exampleCases writes out two of the cases of a pair: one crash point and one injected failure.
+func exampleCases(r *Result) []map[string]interface{} {
+	var out []map[string]interface{}
+	n := len(r.Trace)
+	if n >= 2 && r.CrashStates > 0 {
+		k := n / 2
+		out = append(out, map[string]interface{}{"case": "crash", "crash_index": k, "process_dies_between": []string{fmt.Sprintf("#%d %s", k-1, r.Trace[k-1]), fmt.Sprintf("#%d %s", k, r.Trace[k])},
+			"judged": "copy of the directory at that instant reopened with Server.Open: chain before|after, live bytes, retained snapshots by revert-on-copy, revision counter"})
+	}
+	if n >= 1 && r.FailRuns > 0 {
+		k := n - 1
+		out = append(out, map[string]interface{}{"case": "fail", "call": fmt.Sprintf("#%d %s", k, r.Trace[k]), "errno": "EIO",
+			"judged": "operation result vs. directory after reopen: success => complete new state; failure => old state intact; never success over damage"})
+	}
+	return out
 }
 
 func tailStr(s string, n int) string {
